@@ -107,12 +107,12 @@ def c02(trace, case, end):
             # "at the moment it is submitted": a MARKET order placed at the current price (e.g. from a fill handler in the middle
             # of a minute) is dealt with before the price moves on, i.e. before any resting order of the symbol fills
             cur = o['cur_price']
-            if cur and o['price'] == cur and o['final_idx'] is not None:
+            if cur and abs(1 - o['price'] / cur) <= NEAR + 1e-9 and o['final_idx'] is not None:
                 for ev in trace[o['submit_idx'] + 1:o['final_idx']]:
                     if ev[0] == 'exec' and not ev[3] and ev[1] in orders and orders[ev[1]]['symbol'] == sym and orders[ev[1]]['type'] != 'MARKET':
-                        probs.append(('market-overtaken', {'sim': simname, 'market_order_finally': o['final']},
-                                      'MARKET order %d was submitted at the current price %r, but resting order %d at %r was filled before it was %s'
-                                      % (o['oid'], cur, ev[1], orders[ev[1]]['price'], 'executed' if o['final'] == 'exec' else 'cancelled')))
+                        probs.append(('market-overtaken', {'sim': simname, 'market_order_finally': o['final'], 'priced_at_current': o['price'] == cur},
+                                      'MARKET order %d (price %r) was submitted at the current price %r, but resting order %d at %r was filled before it was %s'
+                                      % (o['oid'], o['price'], cur, ev[1], orders[ev[1]]['price'], 'executed' if o['final'] == 'exec' else 'cancelled')))
                         break
             continue
         # resting order
@@ -234,7 +234,7 @@ def c08(trace, case):
                 ev = trace[idx]
                 if ev[0] == 'submit' and ev[2] == sym:
                     created_at[ev[1]] = cursor
-                    if ev[3] != 'MARKET' or (ev[9] and ev[6] == ev[9]):
+                    if ev[3] != 'MARKET' or (ev[9] and abs(1 - ev[6] / ev[9]) <= 0.00015 + 1e-9):
                         active.add(ev[1])       # a MARKET order placed at the current price sits at the point of the path where it was created
                 if ev[0] == 'cancel' and not ev[3]:
                     active.discard(ev[1])
@@ -273,6 +273,16 @@ def c08(trace, case):
                                       'minute %d path %s: order %d at %r filled at distance %r while order %d at %r (reached at %r) was still waiting'
                                       % (m, path, o['oid'], o['price'], pos, b, ob['price'], pb)))
                         break
+            # the minute is over: whatever the rest of the path reached after an order was there to be hit must have been filled
+            for b in sorted(active):
+                ob = orders[b]
+                start = created_at.get(b, 0.0)
+                pb = start if ob['type'] == 'MARKET' else first_arrival(path, ob['price'], start)
+                if pb is not None and b in created_at:
+                    probs.append(('path-missed', {'missed': 'market-reaction' if ob['type'] == 'MARKET' else 'reaction'},
+                                  'minute %d path %s: order %d at %r was created at distance %r, the path reaches it at %r, but it was not filled in this minute'
+                                  % (m, path, b, ob['price'], start, pb)))
+                    break
             if nfill >= 2:
                 stats['minutes_with_2plus_fills'] += 1
     return probs, stats
